@@ -45,6 +45,21 @@
 //       (set_output_proj_data_sptr(sptr), set_output_proj_data(""), set_output_proj_data_sptr(exam, info, ""));
 //     * oracle-only: an object built by the parsing constructor SingleScatterSimulation(parameter file) gives the result of
 //       the object configured through the setters, also after re-parsing `use cache` and changing an image.
+//   Extensions (coverage round 4):
+//     * ENERGY WINDOWS THAT DO NOT CONTAIN 511 keV (400-480, 250-350, 120-160), straddling ones whose upper threshold is just
+//       above / just below 511, very narrow and very wide ones, energy resolutions 5 % and 30 % (templates 7 and 8): phase A
+//       (all oracles + `ssp`/`est`/`effns`) and `deteff` / `eff511`: detection_efficiency(E) and the normalisation
+//       detector_efficiency_no_scatter recomputed by the Lean model (transcription of detection_efficiency with erf in binary64)
+//       for the pool windows x resolutions and for random windows / resolutions 5-30 %, oracle 0 <= efficiency <= 1;
+//     * ACTIVITY IMAGES WITH LARGE VALUES: homogeneity factors 1e-6, 1e3, 1e6 (fresh and same object), an activity image with
+//       values up to 1e6 in the formula correspondence, additivity with the two halves of an image (zero on one arm of most
+//       scatter points) and a point source, `actint`: integral_over_activity_image_between_scattpoint_det vs the Lean model
+//       (capped solid-angle factor x sum over the ray elements RayTraceVoxelsOnCartesianGrid returns, exact in Rat);
+//     * AUTOMATIC SCATTER-POINT IMAGE ON A RE-USED OBJECT: attenuation images of ANOTHER x/y size (same voxel size and planes)
+//       between set_ups, scatter-point image derived in set_up / by an explicit downsample_density_image_for_scatter_points
+//       call with the automatic (-1) factors, with explicit factors and sizes -1, with explicit sizes: compared with fresh
+//       objects (bitwise), index range of the scatter-point image compared with that of the fresh object, the stored members
+//       zoom_size_xy / zoom_size_z (`zoommem`) compared with the Lean state machine.
 //
 // Usage: c16_scatter <seed> <quick|thorough> <opsfile> <implfile>
 #include "stir_fixtures.h"
@@ -57,6 +72,8 @@
 #include "stir/ProjDataInterfile.h"
 #include "stir/IO/write_to_file.h"
 #include "stir/IO/read_from_file.h"
+#include "stir/recon_buildblock/ProjMatrixElemsForOneBin.h"
+#include "stir/recon_buildblock/RayTraceVoxelsOnCartesianGrid.h"
 #include <fstream>
 #include <sys/stat.h>
 #include <algorithm>
@@ -106,6 +123,12 @@ struct Sim : public SingleScatterSimulation
   using ScatterSimulation::cached_integral_over_activity_image_between_scattpoint_det;
   using ScatterSimulation::cached_exp_integral_over_attenuation_image_between_scattpoint_det;
   using ScatterSimulation::detection_efficiency_no_scatter;
+  using ScatterSimulation::integral_over_activity_image_between_scattpoint_det;
+  using ScatterSimulation::integral_between_2_points;
+  float mem_zoom_xy() const { return zoom_xy; }
+  float mem_zoom_z() const { return zoom_z; }
+  int mem_size_xy() const { return zoom_size_xy; }
+  int mem_size_z() const { return zoom_size_z; }
   static float max_cos(float low, float approx, float res) { return max_cos_angle(low, approx, res); }
   int ndet() const { return static_cast<int>(detection_points_vector.size()); }
   CartesianCoordinate3D<float> det(unsigned d) const { return detection_points_vector[d]; }
@@ -203,6 +226,20 @@ struct World
   std::vector<Zoom> zooms;
   int anz, anxy;
   float avz, avxy;
+  // round 4
+  int tmpl_res05, tmpl_res30;                          // cylindrical templates with 5 % / 30 % energy resolution (sizes of template 0)
+  int exam_extra0, exam_extra_end;                     // pool range of the windows below 511 / straddling / narrow / wide
+  int act_large, act_left, act_right, act_point;       // values up to 1e6; act 0 restricted to x < 0 / x >= 0; one hot voxel
+  int att_wide;                                        // attenuation image with 4-10 more voxels in x and y (same voxel sizes, planes)
+  int zoom_autosize;                                   // zoom set with explicit factors and sizes -1
+  // classes of the factors (zoom_xy, zoom_z, zoom_size_z) the automatic call stores, by value
+  struct AutoCls
+  {
+    float zxy, zz;
+    int sz;
+  };
+  std::vector<AutoCls> auto_classes;
+  std::vector<int> auto_tmpls;                         // templates with a coarse default bin size (small automatic images)
 };
 
 static shared_ptr<Img>
@@ -559,11 +596,27 @@ make_world(int id, vh::Rng& rng, bool thorough)
     w.tmpls.push_back(p2);
     w.dims.push_back(d);
   }
+  // templates 7 and 8 (round 4): sizes of template 0, energy resolution 5 % and 30 %
+  w.tmpl_res05 = static_cast<int>(w.tmpls.size());
+  add_tmpl(N, R, 3.F, 0.05F);
+  w.tmpl_res30 = static_cast<int>(w.tmpls.size());
+  add_tmpl(N, R, 7.F, 0.30F);
   // energy windows: different low thresholds (max scatter angle) and different efficiencies at 511 keV
   // (1 shares the upper threshold with 0, 2 the lower one: a setter that compares only part of the window is visible)
   w.exams.push_back(mk_exam(400.F, 650.F));
   w.exams.push_back(mk_exam(450.F, 650.F));
   w.exams.push_back(mk_exam(400.F, 555.F + 5 * rng.range(0, 4)));
+  // round 4: windows that do NOT contain 511 keV (lower scatter windows), straddling windows whose upper threshold is just
+  // above / just below 511, a very narrow and a very wide one
+  w.exam_extra0 = static_cast<int>(w.exams.size());
+  w.exams.push_back(mk_exam(400.F, 480.F));                            // +0 below
+  w.exams.push_back(mk_exam(250.F, 350.F));                            // +1 below
+  w.exams.push_back(mk_exam(120.F, 160.F));                            // +2 far below
+  w.exams.push_back(mk_exam(350.F, 511.5F + 1.5F * rng.range(0, 6)));  // +3 upper threshold just above 511
+  w.exams.push_back(mk_exam(350.F, 510.5F - 1.5F * rng.range(0, 6)));  // +4 upper threshold just below 511
+  w.exams.push_back(mk_exam(505.F, 517.F));                            // +5 very narrow
+  w.exams.push_back(mk_exam(50.F, 1000.F));                            // +6 very wide
+  w.exam_extra_end = static_cast<int>(w.exams.size());
   // activity / attenuation grid
   w.anz = 3;
   w.anxy = rng.coin() ? 5 : 7;
@@ -596,6 +649,30 @@ make_world(int id, vh::Rng& rng, bool thorough)
     w.acts.push_back(a);
     w.zbad = static_cast<int>(w.acts.size()) - 1;
   }
+  // round 4: large values (log-uniform in 1 .. 1e6, as Bq/ml or counts); act 0 split into its x < 0 and x >= 0 halves (zero on
+  // one arm of most scatter points; left + right = act 0 exactly); a point source
+  {
+    auto a = blank(w.anz, w.anxy, w.avz, w.avxy);
+    for (auto it = a->begin_all(); it != a->end_all(); ++it)
+      *it = rng.unit() < 0.25 ? 0.F : static_cast<float>(std::pow(10., 6. * rng.unit()));
+    (*a)[rng.range(0, w.anz - 1)][rng.range(-(w.anxy / 2), w.anxy / 2)][rng.range(-(w.anxy / 2), w.anxy / 2)] = 1.0e6F;
+    w.act_large = static_cast<int>(w.acts.size());
+    w.acts.push_back(a);
+    auto l = blank(w.anz, w.anxy, w.avz, w.avxy), r = blank(w.anz, w.anxy, w.avz, w.avxy);
+    for (int z = 0; z < w.anz; ++z)
+      for (int y = -(w.anxy / 2); y <= w.anxy / 2; ++y)
+        for (int x = -(w.anxy / 2); x <= w.anxy / 2; ++x)
+          (x < 0 ? *l : *r)[z][y][x] = (*w.acts[0])[z][y][x];
+    w.act_left = static_cast<int>(w.acts.size());
+    w.acts.push_back(l);
+    w.act_right = static_cast<int>(w.acts.size());
+    w.acts.push_back(r);
+    auto pt = blank(w.anz, w.anxy, w.avz, w.avxy);
+    (*pt)[rng.range(0, w.anz - 1)][rng.range(-(w.anxy / 2), w.anxy / 2)][rng.range(-(w.anxy / 2), w.anxy / 2)]
+        = static_cast<float>(1 + rng.range(0, 9999));
+    w.act_point = static_cast<int>(w.acts.size());
+    w.acts.push_back(pt);
+  }
   // thresholds: 0 = default 0.01, 1 = 0.07
   w.thrs.push_back(0.01F);
   w.thrs.push_back(0.07F);
@@ -604,6 +681,11 @@ make_world(int id, vh::Rng& rng, bool thorough)
   Zoom z1 = { 5.F / w.anxy, 0.5F, 5, 2 };
   w.zooms.push_back(z0);
   w.zooms.push_back(z1);
+  // round 4: explicit factors, sizes -1: x/y size = int(old * 0.5 + 1) made odd (3 for 5, 5 for 7 and 9, 7 for 11 voxels),
+  // z size = int(3 * 0.5 + 1) = 2, after which the member zoom_z is "adjusted" to (2 - 1) / (3 - 1) = 0.5 again
+  Zoom z2 = { 0.5F, 0.5F, -1, -1 };
+  w.zoom_autosize = static_cast<int>(w.zooms.size());
+  w.zooms.push_back(z2);
   // attenuation images: "low" voxels (above thr 0 only) and "high" voxels (above both); after down-sampling
   // the two thresholds must select different, non-empty sets of scatter points (so that a stale set is visible)
   while (w.atts.size() < 2)
@@ -640,6 +722,32 @@ make_world(int id, vh::Rng& rng, bool thorough)
       for (int y = -(w.anxy / 2); y <= w.anxy / 2; ++y)
         for (int x = -(w.anxy / 2); x <= w.anxy / 2; ++x)
           (*m)[z][y][x] = a0[z][y][-x];
+    w.atts.push_back(m);
+  }
+  // attenuation image 3 (round 4): ANOTHER x/y size (4-10 more voxels), same voxel sizes and planes
+  {
+    // (so many more that the automatic scatter-point image gets another x/y size under both templates with a coarse default
+    //  bin size: int(n * voxel size / bin size + 1), made odd)
+    int extra = 4;
+    for (; extra < 12; extra += 2)
+      {
+        bool differs = true;
+        for (int t : { w.auto_tmpl, w.auto_tmpl + 1 })
+          {
+            const float zxy = w.avxy / w.tmpls[t]->get_scanner_ptr()->get_default_bin_size();
+            int a = static_cast<int>(w.anxy * zxy + 1), b = static_cast<int>((w.anxy + extra) * zxy + 1);
+            a += (a % 2 == 0);
+            b += (b % 2 == 0);
+            if (a == b)
+              differs = false;
+          }
+        if (differs)
+          break;
+      }
+    auto m = blank(w.anz, w.anxy + extra, w.avz, w.avxy);
+    for (auto it = m->begin_all(); it != m->end_all(); ++it)
+      *it = rng.unit() < 0.6 ? static_cast<float>(0.012 + 0.02 * rng.unit()) : static_cast<float>(0.10 + 0.06 * rng.unit());
+    w.att_wide = static_cast<int>(w.atts.size());
     w.atts.push_back(m);
   }
   // images on the z-grid of the automatic template
@@ -699,7 +807,7 @@ make_world(int id, vh::Rng& rng, bool thorough)
 
 // declare the world to the model
 static void
-declare_world(const World& w)
+declare_world(World& w)
 {
   emit("cfg world " + num(w.id), "ok");
   for (std::size_t k = 0; k < w.tmpls.size(); ++k)
@@ -730,6 +838,61 @@ declare_world(const World& w)
                "ok");
       }
   emit("cfg zbad " + num(w.zbad), "ok");
+  // round 4: the sizes of the zoom parameter sets (the members zoom_size_xy / zoom_size_z the setter stores)
+  for (std::size_t z = 0; z < w.zooms.size(); ++z)
+    emit("cfg zoomset " + num(z) + " " + num(w.zooms[z].sxy) + " " + num(w.zooms[z].sz), "ok");
+  // round 4: the automatic (-1) factors. What downsample_density_image_for_scatter_points(-1,-1,-1,-1) stores in zoom_xy /
+  // zoom_z / zoom_size_z for (attenuation image, template), measured on a probe object and turned into a class by value;
+  // and the number of scatter points of every attenuation image down-sampled with the STORED factors of every class
+  // (x/y size derived from the image: zoom_size_xy = -1)
+  w.auto_tmpls = { w.auto_tmpl, w.auto_tmpl + 1, w.ftmpls[3].k_pool };
+  for (int t : w.auto_tmpls)
+    for (std::size_t m = 0; m < w.atts.size(); ++m)
+      {
+        Config c;
+        c.act = 0;
+        c.att = static_cast<int>(m);
+        c.tmpl = t;
+        c.exam = 0;
+        c.zoom = -1;
+        std::unique_ptr<Sim> p = configure(w, c);
+        oracle(p->mem_zoom_xy() < 0 && p->mem_zoom_z() < 0 && p->mem_size_xy() == -1 && p->mem_size_z() == -1,
+               "world=" + num(w.id) + " the zoom members of a new object are not the defaults (-1)");
+        p->set_up();
+        const World::AutoCls k = { p->mem_zoom_xy(), p->mem_zoom_z(), p->mem_size_z() };
+        std::size_t id = 0;
+        while (id < w.auto_classes.size()
+               && !(w.auto_classes[id].zxy == k.zxy && w.auto_classes[id].zz == k.zz && w.auto_classes[id].sz == k.sz))
+          ++id;
+        if (id == w.auto_classes.size())
+          w.auto_classes.push_back(k);
+        emit("cfg autoclass " + num(m) + " " + num(t) + " " + num(id), "ok");
+      }
+  for (std::size_t id = 0; id < w.auto_classes.size(); ++id)
+    for (std::size_t m = 0; m < w.atts.size(); ++m)
+      {
+        Config c;
+        c.act = 0;
+        c.att = static_cast<int>(m);
+        c.tmpl = w.auto_tmpl;
+        c.exam = 0;
+        c.zoom = -1;
+        std::unique_ptr<Sim> p = configure(w, c);
+        try
+          {
+            p->set_image_downsample_factors(w.auto_classes[id].zxy, w.auto_classes[id].zz, -1, w.auto_classes[id].sz);
+            if (p->set_up() != Succeeded::yes)
+              continue;
+          }
+        catch (...)
+          {
+            continue;
+          }
+        for (std::size_t t = 0; t < w.thrs.size(); ++t)
+          emit("cfg nspauto " + num(m) + " " + num(id) + " " + num(t) + " "
+                   + num(count_at_or_above(p->get_attenuation_image_for_scatter_points(), w.thrs[t])),
+               "ok");
+      }
 }
 
 // ------------------------------------------------------------------------------------------------ phase A
@@ -789,6 +952,116 @@ ing_text(const Ingredients& g)
   return t;
 }
 
+// integral_over_activity_image_between_scattpoint_det(scatter point, detector) for the formula correspondence: the value the
+// implementation returns, together with the elements of the ray as integral_between_2_points obtains them
+// (RayTraceVoxelsOnCartesianGrid on the image the object holds, same arguments: single_scatter_integrals.cxx:70-87), each
+// with "inside the index range" and the voxel value; the Lean model multiplies the sum by min(pi/2, 1/r^2)
+static void
+emit_actint(Sim& s, unsigned p, unsigned D, const string& ctx)
+{
+  const Img& image = dynamic_cast<const Img&>(s.get_activity_image());
+  const CartesianCoordinate3D<float> S = s.sp(p), Dc = s.det(D);
+  const float direct = s.integral_over_activity_image_between_scattpoint_det(S, Dc);
+  const float cached = s.cached_integral_over_activity_image_between_scattpoint_det(p, D);
+  oracle(std::memcmp(&direct, &cached, sizeof(float)) == 0,
+         ctx + " cached_integral_over_activity_image_between_scattpoint_det differs from the direct integral for scatter point " + num(p)
+             + ", detector " + num(D));
+  const CartesianCoordinate3D<float> voxel_size = image.get_grid_spacing();
+  CartesianCoordinate3D<float> origin = image.get_origin();
+  const float z_to_middle = (image.get_max_index() + image.get_min_index()) * voxel_size.z() / 2.F;
+  origin.z() -= z_to_middle;
+  ProjMatrixElemsForOneBin lor;
+  RayTraceVoxelsOnCartesianGrid(lor, (S - origin) / voxel_size, (Dc - origin) / voxel_size, voxel_size, 1 / voxel_size.x());
+  lor.sort();
+  string body;
+  int n = 0;
+  for (ProjMatrixElemsForOneBin::iterator e = lor.begin(); e != lor.end(); ++e, ++n)
+    {
+      const BasicCoordinate<3, int> cd = e->get_coords();
+      const bool inside = cd[1] >= image.get_min_index() && cd[1] <= image.get_max_index() && cd[2] >= image[cd[1]].get_min_index()
+                          && cd[2] <= image[cd[1]].get_max_index() && cd[3] >= image[cd[1]][cd[2]].get_min_index()
+                          && cd[3] <= image[cd[1]][cd[2]].get_max_index();
+      body += string(" ") + str(inside ? 1.0 : 0.0) + " " + str(inside ? image[cd] : 0.F) + " " + str(e->get_value());
+    }
+  const float r2 = norm_squared(S - Dc);
+  emit("actint " + num(n) + " " + str(r2) + " " + str(static_cast<float>(_PI / 2)) + body, str(direct));
+  // the line integral itself is a public-ish static of the class: the capped factor times it is the value, to rounding
+  const float li = Sim::integral_between_2_points(image, S, Dc);
+  const float saf = std::min(static_cast<float>(_PI / 2), 1.F / r2);
+  oracle(std::fabs(direct - double(saf) * li) <= 4 * EPSF * std::fabs(double(saf) * li),
+         ctx + " integral_over_activity_image_between_scattpoint_det is not min(pi/2, 1/r^2) * integral_between_2_points (" + str(direct) + " vs "
+             + str(double(saf) * li) + ")");
+}
+
+// `deteff` operations: detection_efficiency(E) of an object with the given template (reference energy, energy resolution) and
+// energy window, and the property's "never negative" (a detection probability: also <= 1) on the implementation
+static void
+emit_deteff(const Sim& s, float energy, const string& ctx)
+{
+  const Scanner& sc = *s.get_template_proj_data_info_sptr()->get_scanner_ptr();
+  const ExamInfo& ex = *s.get_exam_info_sptr();
+  const float v = s.detection_efficiency(energy);
+  emit("deteff " + str(energy) + " " + str(sc.get_reference_energy()) + " " + str(sc.get_energy_resolution()) + " " + str(2.35482f) + " "
+           + str(ex.get_low_energy_thres()) + " " + str(ex.get_high_energy_thres()),
+       str(v));
+  oracle(v >= 0.F && v <= 1.F + 4 * EPSF,
+         ctx + " detection_efficiency(" + fmt9(energy) + " keV) = " + fmt9(v) + " for the energy window " + fmt9(ex.get_low_energy_thres()) + "-"
+             + fmt9(ex.get_high_energy_thres()) + " keV, energy resolution " + fmt9(sc.get_energy_resolution()) + ": outside [0, 1]");
+}
+
+// detection_efficiency over the pool windows x templates of different energy resolution, and over random windows /
+// resolutions (5-30 %): no set_up needed (the function reads the template and the exam info only)
+static void
+deteff_sweep(const World& w, vh::Rng& rng, int n_random)
+{
+  emit("cfg deteff world=" + num(w.id), "ok");
+  const string ctx = "world=" + num(w.id) + " detection efficiency:";
+  auto energies = [&](const Sim& s, float lo, float hi, int n_rand) {
+    const float fixed[] = { 511.F, lo, hi, lo - 1.F, hi + 1.F, 0.5F * (lo + hi), 170.4F, 255.5F, 340.7F, 408.8F, 460.F, 495.F, 505.F, 510.F, 512.F, 560.F, 700.F };
+    for (float e : fixed)
+      if (e > 1.F)
+        emit_deteff(s, e, ctx);
+    for (int k = 0; k < n_rand; ++k)
+      {
+        // energies a scattered 511 keV photon can have (170.3 .. 511), some near the thresholds
+        const int r = rng.range(0, 3);
+        const float e = r == 0   ? static_cast<float>(lo + (rng.unit() - 0.5) * 40.)
+                        : r == 1 ? static_cast<float>(hi + (rng.unit() - 0.5) * 40.)
+                                 : static_cast<float>(170.4 + 340.6 * rng.unit());
+        if (e > 1.F)
+          emit_deteff(s, e, ctx);
+      }
+  };
+  const int tmpls[] = { 0, 1, w.tmpl_res05, w.tmpl_res30, 3 };
+  for (int k : tmpls)
+    for (std::size_t e = 0; e < w.exams.size(); ++e)
+      {
+        // (windows read back from files: only with the first template)
+        if (static_cast<int>(e) >= w.exam_extra_end && k != 0)
+          continue;
+        Sim s;
+        s.set_template_proj_data_info(*w.tmpls[k]);
+        s.set_exam_info(*w.exams[e]);
+        energies(s, w.exams[e]->get_low_energy_thres(), w.exams[e]->get_high_energy_thres(), 2);
+      }
+  for (int k = 0; k < n_random; ++k)
+    {
+      shared_ptr<Scanner> sc(new Scanner(*w.tmpls[0]->get_scanner_ptr()));
+      sc->set_energy_resolution(static_cast<float>(0.05 + 0.25 * rng.unit()));
+      if (k % 4 == 3)
+        sc->set_reference_energy(static_cast<float>(300 + 400 * rng.unit())); // (resolution quoted at another energy)
+      const shared_ptr<ProjDataInfo> pdi = vh::make_pdi(sc, 1, w.dims[0].rings - 1, w.dims[0].dets / 2, w.dims[0].dets / 2 - 1);
+      const float lo = static_cast<float>(30 + 570 * rng.unit());
+      const int wk = rng.range(0, 3);
+      const float width = static_cast<float>(wk == 0 ? 1 + 5 * rng.unit() : wk == 1 ? 10 + 90 * rng.unit() : wk == 2 ? 100 + 500 * rng.unit() : 511.F - lo + (rng.unit() - 0.5) * 6.);
+      const float hi = lo + std::max(0.5F, width);
+      Sim s;
+      s.set_template_proj_data_info(*pdi);
+      s.set_exam_info(*mk_exam(lo, hi));
+      energies(s, lo, hi, 3);
+    }
+}
+
 static void
 phase_a(const World& w, const Config& c, vh::Rng& rng, int n_est_ops, const string& tag)
 {
@@ -799,7 +1072,9 @@ phase_a(const World& w, const Config& c, vh::Rng& rng, int n_est_ops, const stri
        "ok");
   const string ctx = "world=" + num(w.id) + " " + tag + (w.dims[c.tmpl].blocks ? " (BlocksOnCylindrical)" : "") + (c.rnd ? " (random placement)" : "")
                      + (c.ds || !c.ds_calls.empty() ? " (down-sampled scanner)" : "") + (c.zoom < 0 && c.sp < 0 ? " (automatic zoom)" : "")
-                     + (c.ds_images ? " (images down-sampled to scanner size)" : "");
+                     + (c.ds_images ? " (images down-sampled to scanner size)" : "")
+                     + " (energy window " + fmt9(w.exams[c.exam]->get_low_energy_thres()) + "-" + fmt9(w.exams[c.exam]->get_high_energy_thres())
+                     + " keV, resolution " + fmt9(w.tmpls[c.tmpl]->get_scanner_ptr()->get_energy_resolution()) + ")";
   g_time_step = c.rnd ? 1 : 0;
   struct Restore
   {
@@ -818,9 +1093,13 @@ phase_a(const World& w, const Config& c, vh::Rng& rng, int n_est_ops, const stri
   // number of scatter points = voxels at/above threshold of the scatter-point image
   oracle(nsp == count_at_or_above(s->get_attenuation_image_for_scatter_points(), w.thrs[c.thr]),
          ctx + " number of scatter points differs from the number of voxels at/above the threshold");
-  // (dense activity images only: a few hot voxels may legitimately see no scatter in a tiny scanner)
-  if (c.act < 2)
-    oracle(nsp > 0 && total(out) > 0, ctx + " degenerate configuration (no scatter) — generator problem");
+  // (dense activity images only: a few hot voxels may legitimately see no scatter in a tiny scanner; the windows far below
+  //  511 keV / very narrow ones may legitimately detect nothing: there only scatter points are required)
+  const bool dense_act = c.act < 2 || c.act == w.act_large;
+  const bool extra_exam = c.exam >= w.exam_extra0 && c.exam < w.exam_extra_end;
+  const bool may_detect_nothing = extra_exam && (c.exam == w.exam_extra0 + 2 || c.exam == w.exam_extra0 + 5);
+  if (dense_act)
+    oracle(nsp > 0 && (may_detect_nothing || total(out) > 0), ctx + " degenerate configuration (no scatter) — generator problem");
   // detection points: once every detector is registered they are symmetric in z about the centre of the scanner (the shift
   // applied by set_up: get_m of the first bin, cylindrical and blocks branch)
   {
@@ -976,6 +1255,13 @@ phase_a(const World& w, const Config& c, vh::Rng& rng, int n_est_ops, const stri
           est_line += ing_text(g);
           if (p < 3 || g.value != 0)
             emit("ssp" + ing_text(g), str(g.value));
+          if (p < 3)
+            {
+              // round 4: the efficiency and the activity integrals the point reads, recomputed by the model
+              emit_deteff(*s, ScatterSimulation::photon_energy_after_Compton_scatter_511keV(static_cast<float>(g.pc[1])), ctx);
+              emit_actint(*s, p, A, ctx);
+              emit_actint(*s, p, B, ctx);
+            }
         }
       const CartesianCoordinate3D<float> DA = s->det(A), DB = s->det(B);
       const CartesianCoordinate3D<float> ca(0, -DA[2], -DA[3]), cb(0, -DB[2], -DB[3]);
@@ -991,6 +1277,19 @@ phase_a(const World& w, const Config& c, vh::Rng& rng, int n_est_ops, const stri
       const string cA = str(static_cast<float>(cos_angle(DB - DA, ca))), cB = str(static_cast<float>(cos_angle(DA - DB, cb)));
       emit("effns " + r2 + " " + str(eff511) + " " + cA + " " + cB + " " + str(_PI), str(s->detection_efficiency_no_scatter(A, B)));
       emit("effns " + r2 + " " + str(eff511) + " " + cB + " " + cA + " " + str(_PI), str(s->detection_efficiency_no_scatter(B, A)));
+      // round 4: the normalisation the object holds (detector_efficiency_no_scatter, private), recovered from
+      // detection_efficiency_no_scatter(A,B) = eff * cosA * cosB / (0.75 / 2 / pi * rAB^2), vs the model's
+      // `detection_efficiency(511) > 0 ? detection_efficiency(511) : 1`
+      {
+        const Scanner& sc = *s->get_template_proj_data_info_sptr()->get_scanner_ptr();
+        // (the product of the two cosines is a SINGLE-precision product in the implementation)
+        const float cos_prod = static_cast<float>(cos_angle(DB - DA, ca)) * static_cast<float>(cos_angle(DA - DB, cb));
+        const double held = s->detection_efficiency_no_scatter(A, B) * (0.75 / 2. / _PI * static_cast<float>(norm_squared(DA - DB)) / cos_prod);
+        emit("eff511 " + str(sc.get_reference_energy()) + " " + str(sc.get_energy_resolution()) + " " + str(2.35482f) + " "
+                 + str(w.exams[c.exam]->get_low_energy_thres()) + " " + str(w.exams[c.exam]->get_high_energy_thres()),
+             str(held));
+        oracle(held > 0, ctx + " the normalisation detector_efficiency_no_scatter is not positive (" + str(held) + ")");
+      }
     }
   // (3b) the same object after set_activity_image_sptr + set_up (scatter points are not resampled, so this also holds
   //      with random placement): 2*activity => 2*estimate, zero activity => 0, the first image again => the first output
@@ -1005,6 +1304,21 @@ phase_a(const World& w, const Config& c, vh::Rng& rng, int n_est_ops, const stri
         if (std::fabs(o2[i] - 2.0 * out[i]) > 16 * EPSF * std::fabs(2.0 * out[i]))
           ok2 = false;
       oracle(ok2, ctx + " same object: estimate after set_activity_image_sptr(2*activity) + set_up is not 2*estimate");
+      // round 4: homogeneity far from 1 (Bq/ml or counts: voxel values of 1e3 .. 1e6 and more)
+      for (float factor : { 1.0e6F, 1.0e3F, 1.0e-6F })
+        {
+          shared_ptr<Img> af(new Img(*w.acts[c.act]));
+          *af *= factor;
+          std::vector<float> of;
+          s->set_activity_image_sptr(af);
+          bool okf = s->set_up() == Succeeded::yes && run_process(*s, of) && of.size() == out.size();
+          long bad = 0;
+          for (std::size_t i = 0; okf && i < out.size(); ++i)
+            if (!(std::fabs(of[i] - double(factor) * out[i]) <= 64 * EPSF * std::fabs(double(factor) * out[i])))
+              ++bad;
+          oracle(okf && bad == 0, ctx + " same object: estimate for " + fmt9(factor) + "*activity is not " + fmt9(factor) + "*estimate (" + num(bad)
+                                      + " bins outside 64*2^-24 relative)");
+        }
       s->set_activity_image_sptr(w.acts[4]);
       bool okz = s->set_up() == Succeeded::yes && run_process(*s, oz);
       for (float x : oz)
@@ -1095,6 +1409,54 @@ phase_a(const World& w, const Config& c, vh::Rng& rng, int n_est_ops, const stri
           ++bad;
       }
     oracle(lin && bad == 0, ctx + " estimate is not additive in the activity image (" + num(bad) + " bins outside 4*64*2^-24 relative)");
+    // round 4: homogeneity with factors far from 1 (the voxel products are rounded once: 64*2^-24)
+    for (float factor : { 1.0e-6F, 1.0e3F, 1.0e6F })
+      {
+        shared_ptr<Img> af(new Img(*w.acts[c.act]));
+        *af *= factor;
+        std::vector<float> of;
+        bool okf = fresh_result(w, c, of, af) && of.size() == out.size();
+        long badf = 0;
+        for (std::size_t i = 0; okf && i < out.size(); ++i)
+          if (!(std::fabs(of[i] - double(factor) * out[i]) <= 64 * EPSF * std::fabs(double(factor) * out[i])))
+            ++badf;
+        oracle(okf && badf == 0, ctx + " estimate for " + fmt9(factor) + "*activity is not " + fmt9(factor) + "*estimate (" + num(badf)
+                                     + " bins outside 64*2^-24 relative)");
+      }
+    // additivity with sparse images: the two halves of activity image 0 (each is zero on one arm of most scatter points:
+    // the early return `emiss_to_detA == 0 && emiss_to_detB == 0` and the one-armed terms) and a point source
+    {
+      std::vector<float> o0, ol, orr, op, oc2;
+      Config cc = c;
+      cc.act = 0;
+      bool ok = fresh_result(w, cc, o0);
+      cc.act = w.act_left;
+      ok = ok && fresh_result(w, cc, ol);
+      cc.act = w.act_right;
+      ok = ok && fresh_result(w, cc, orr);
+      cc.act = w.act_point;
+      ok = ok && fresh_result(w, cc, op);
+      // 3 * left + 1e4 * point
+      shared_ptr<Img> comb2(new Img(*w.acts[w.act_left]));
+      *comb2 *= 3.F;
+      {
+        Img tmp(*w.acts[w.act_point]);
+        tmp *= 1.0e4F;
+        *comb2 += tmp;
+      }
+      ok = ok && fresh_result(w, c, oc2, comb2) && o0.size() == ol.size() && o0.size() == orr.size() && o0.size() == op.size() && o0.size() == oc2.size();
+      long bad1 = 0, bad2 = 0;
+      for (std::size_t i = 0; ok && i < o0.size(); ++i)
+        {
+          if (!(std::fabs(o0[i] - (double(ol[i]) + orr[i])) <= 4 * 64 * EPSF * (std::fabs(ol[i]) + std::fabs(orr[i]))))
+            ++bad1;
+          const double expect = 3.0 * ol[i] + 1.0e4 * op[i];
+          if (!(std::fabs(oc2[i] - expect) <= 4 * 64 * EPSF * std::fabs(expect)))
+            ++bad2;
+        }
+      oracle(ok && bad1 == 0, ctx + " estimate(left half) + estimate(right half) is not estimate(whole image) (" + num(bad1) + " bins outside 4*64*2^-24 relative)");
+      oracle(ok && bad2 == 0, ctx + " estimate(3*half image + 1e4*point source) is not 3*estimate(half) + 1e4*estimate(point) (" + num(bad2) + " bins)");
+    }
   }
 }
 
@@ -1160,12 +1522,22 @@ hist_apply(Hist& h, const std::vector<string>& t)
       if (op == "ds_sp")
         {
           if (h.cfg.zoom < 0)
-            return "bad-op";
+            {
+              // round 4: no zoom set: the members as arguments, exactly what set_up() passes (the defaults -1 before the
+              // first automatic call, what that call stored afterwards)
+              if (!s.has_template_proj_data_info())
+                return "bad-op"; // (null dereference in the library: the generator never asks for it)
+              s.downsample_density_image_for_scatter_points(s.mem_zoom_xy(), s.mem_zoom_z(), s.mem_size_xy(), s.mem_size_z());
+              h.cfg.sp = -1;
+              return "ok";
+            }
           const Zoom& z = w.zooms[h.cfg.zoom];
           s.downsample_density_image_for_scatter_points(z.zxy, z.zz, z.sxy, z.sz);
           h.cfg.sp = -1;
           return "ok";
         }
+      if (op == "zoommem")
+        return num(s.mem_size_xy()) + " " + num(s.mem_size_z()) + " " + (s.mem_zoom_xy() < 0 ? "1" : "0");
       // in-place change + the same pointer again
       if (op == "set_act_ip" || op == "set_att_ip" || op == "set_spimg_ip")
         {
@@ -1466,7 +1838,7 @@ run_history(const World& w, const std::vector<string>& lines, const string& kind
           ans = hist_apply(h, t);
           if (t[0] == "set_up")
             set_up_succeeded_last = ans == "ok";
-          else if (t[0] != "nsp" && t[0] != "tmplinfo")
+          else if (t[0] != "nsp" && t[0] != "tmplinfo" && t[0] != "zoommem")
             set_up_succeeded_last = false;
           if (ans == "bad-op")
             oracle(false, "harness generated an operation it cannot execute: " + line);
@@ -1893,6 +2265,163 @@ entry_point_histories(const World& w, vh::Rng& rng)
     }
 }
 
+// ------------------------------------------------------------------------------------------------ round 4: automatic zoom
+// ONE OBJECT RE-USED WITH ATTENUATION IMAGES OF ANOTHER x/y SIZE (same voxel sizes and planes), the scatter-point image
+// derived (a) by set_up with the automatic (-1) factors, (b) by an explicit downsample_density_image_for_scatter_points call
+// with the members as arguments, (c) with explicit factors and sizes -1 (zoom set 2), (d) with explicit sizes (zoom sets 0, 1).
+// Every process_data == fresh object (bitwise, also with the opposite cache setting), every answer (`nsp`, `zoommem` = the
+// stored members zoom_size_xy / zoom_size_z / zoom_xy < 0, ok / err / fresh) == Lean state machine under the guard `opOk`.
+static std::vector<string>
+auto_base(int act, int att, int tmpl, int exam, int thr = 0)
+{
+  std::vector<string> l;
+  l.push_back("set_thr " + num(thr));
+  l.push_back("set_tmpl " + num(tmpl));
+  l.push_back("set_exam " + num(exam));
+  l.push_back("set_act " + num(act));
+  l.push_back("set_att " + num(att));
+  return l;
+}
+
+static void
+auto_zoom_histories(const World& w, vh::Rng& rng, int n_random)
+{
+  const int AT = w.auto_tmpl;
+  const string W = num(w.att_wide);
+  // generator check: the automatic scatter-point images of the narrow and the wide attenuation image have different x/y sizes
+  {
+    int sizes[2];
+    int k = 0;
+    for (int m : { 0, w.att_wide })
+      {
+        Config c;
+        c.act = 0; c.att = m; c.tmpl = AT; c.exam = 0; c.zoom = -1;
+        std::unique_ptr<Sim> p = configure(w, c);
+        p->set_up();
+        sizes[k++] = dynamic_cast<const Img&>(p->get_attenuation_image_for_scatter_points()).get_x_size();
+      }
+    oracle(sizes[0] != sizes[1], "world=" + num(w.id) + " automatic scatter-point images of the two attenuation image sizes have the same x size ("
+                                     + num(sizes[0]) + ") — generator problem");
+  }
+  // (a)+(b) automatic factors
+  for (int first_wide = 0; first_wide < 2; ++first_wide)
+    {
+      const string A = first_wide ? W : "0", B = first_wide ? "0" : W;
+      std::vector<string> l = auto_base(0, first_wide ? w.att_wide : 0, first_wide ? AT + 1 : AT, first_wide);
+      append(l, { "zoommem", "nsp", "set_up", "zoommem", "nsp", "process" });
+      l.push_back("set_att " + B);
+      append(l, { "set_up", "zoommem", "nsp", "process", "set_att 1", "set_up", "nsp", "process" });
+      l.push_back("set_att_file " + B);
+      append(l, { "ds_sp", "nsp", "zoommem", "process", "set_up", "process", "set_act 1", "set_up", "process", "set_att_ip 2", "set_up", "nsp", "process" });
+      l.push_back("set_att " + A);
+      append(l, { "set_thr 1", "ds_sp", "nsp", "set_up", "process", "process" });
+      run_history(w, l, "clean", "", "", false, first_wide, true);
+    }
+  // the explicit call BEFORE any set_up (the factors are computed and stored by the call), cache off, by file name
+  {
+    std::vector<string> l = auto_base(1, 1, w.auto_tmpls[2], 2);
+    l.insert(l.begin(), "set_use_cache 0");
+    append(l, { "ds_sp", "zoommem", "nsp", "set_up", "process" });
+    l.push_back("set_att " + W);
+    append(l, { "ds_sp", "zoommem", "nsp", "set_up", "process", "set_act_file 0", "set_att_file 0", "set_up", "nsp", "process" });
+    run_history(w, l, "clean", "", "", false, 2, true);
+  }
+  // (c) explicit factors, sizes -1 (zoom set 2): the x/y size follows the image, nothing is frozen
+  for (int tk : { 0, 3 })
+    {
+      std::vector<string> l = base_config(0, 0, -1, tk, 0, 0, w.zoom_autosize);
+      append(l, { "zoommem", "set_up", "zoommem", "nsp", "process" });
+      l.push_back("set_att " + W);
+      append(l, { "set_up", "zoommem", "nsp", "process", "set_att 1", "ds_sp", "nsp", "set_up", "process" });
+      l.push_back("set_att_file " + W);
+      append(l, { "set_act 1", "set_up", "nsp", "process" });
+      run_history(w, l, "clean", "", "", false, 0, true);
+    }
+  // (d) explicit sizes (zoom sets 0 / 1): the wide image is down-sampled to the same number of voxels
+  {
+    std::vector<string> l = base_config(1, 1, -1, 1, 1, 0, 0);
+    append(l, { "set_up", "zoommem", "nsp", "process" });
+    l.push_back("set_att " + W);
+    append(l, { "set_up", "zoommem", "nsp", "process" });
+    l.push_back("set_att " + W);
+    append(l, { "set_zoom 1", "set_up", "zoommem", "nsp", "process", "set_att 0", "ds_sp", "nsp", "set_up", "process" });
+    run_history(w, l, "clean", "", "", false, 1, true);
+  }
+  // template changes with the automatic factors: the KNOWN classes `automatic-zoom-…` (emitted by the oracle-only histories):
+  // here the Lean state machine has to predict which results are stale
+  {
+    std::vector<string> l = auto_base(0, 0, AT, 0);
+    append(l, { "set_up", "zoommem", "nsp", "process" });
+    l.push_back("set_tmpl " + num(AT + 1));
+    append(l, { "set_up", "zoommem", "nsp", "process", "set_att 0", "set_up", "zoommem", "nsp", "process" });
+    l.push_back("set_att " + W);
+    append(l, { "set_up", "nsp", "process" });
+    l.push_back("set_tmpl " + num(AT));
+    append(l, { "set_up", "process", "set_att 1", "set_up", "nsp", "process", "set_zoom 0", "set_up", "zoommem", "process", "set_att 1", "set_up", "nsp", "process" });
+    run_history(w, l, "dirty", "", "");
+  }
+  // random histories with the automatic factors inside the guard: one template (set again now and then), attenuation images
+  // of both sizes by pointer / file / in place, explicit down-sampling calls
+  for (int k = 0; k < n_random; ++k)
+    {
+      const int T = w.auto_tmpls[rng.range(0, 2)];
+      std::vector<string> l = auto_base(rng.range(0, 3), rng.range(0, 3), T, rng.range(0, 2), rng.range(0, 1));
+      if (rng.coin())
+        l.insert(l.begin(), rng.coin() ? "set_use_cache 0" : "set_cache_enabled 0");
+      if (rng.range(0, 3) == 0)
+        {
+          // another template first: nothing is stored before the first call
+          l.insert(l.begin(), "set_tmpl " + num(w.auto_tmpls[rng.range(0, 2)]));
+        }
+      auto att_op = [&]() {
+        const int m = rng.range(0, 3);
+        const int r = rng.range(0, 3);
+        // (the owner's image object has the size of images 0-2)
+        return string(r == 0 && m != w.att_wide ? "set_att_ip " : r == 1 ? "set_att_file " : "set_att ") + num(m);
+      };
+      const int len = 14;
+      for (int i = 0; i < len; ++i)
+        {
+          const int r = rng.range(0, 99);
+          if (r < 12)
+            l.push_back(string(rng.coin() ? "set_act " : "set_act_file ") + num(rng.range(0, 3)));
+          else if (r < 34)
+            l.push_back(att_op());
+          else if (r < 40)
+            {
+              l.push_back(att_op());
+              l.push_back("set_thr " + num(rng.range(0, 1)));
+            }
+          else if (r < 46)
+            {
+              l.push_back("set_tmpl " + num(T));
+              if (rng.coin())
+                l.push_back("set_exam " + num(rng.range(0, 2)));
+            }
+          else if (r < 54)
+            l.push_back("ds_sp");
+          else if (r < 60)
+            l.push_back("zoommem");
+          else if (r < 66)
+            l.push_back("nsp");
+          else if (r < 70)
+            l.push_back("set_act 5"); // inconsistent z-middle: set_up must refuse
+          else if (r < 80)
+            l.push_back("set_up");
+          else if (r < 85)
+            l.push_back("process");
+          else
+            {
+              l.push_back("set_up");
+              l.push_back("process");
+            }
+        }
+      l.push_back("set_act " + num(rng.range(0, 3)));
+      append(l, { "set_up", "zoommem", "nsp", "process" });
+      run_history(w, l, "clean", "", "", false, rng.range(0, 2), rng.range(0, 2) == 0);
+    }
+}
+
 // random histories within the guard of the Lean theorem (`opOk`): the generator only emits
 //   set_exam right after set_tmpl / ds_scanner, set_thr / set_zoom right after set_att, cache enabling right after a
 //   setter that resets _already_set_up; never the downsample-scanner flag.
@@ -2083,7 +2612,16 @@ static void
 random_dirty_history(const World& w, vh::Rng& rng, int length)
 {
   const int ntm = static_cast<int>(w.tmpls.size());
-  std::vector<string> l = base_config(rng.range(0, 1), rng.range(0, 1), rng.coin() ? rng.range(0, 2) : -1, rng.range(0, ntm - 1), rng.range(0, 2),
+  // (not the template with 5 % energy resolution: there the windows 0 and 1 both have efficiency 1.0f at 511 keV, so the
+  //  stale normalisation the state machine predicts after set_exam_info is invisible; the state machine identifies values by
+  //  pool index and assumes different indices give different values)
+  auto pick_tmpl = [&]() {
+    int k = rng.range(0, ntm - 1);
+    while (k == w.tmpl_res05)
+      k = rng.range(0, ntm - 1);
+    return k;
+  };
+  std::vector<string> l = base_config(rng.range(0, 1), rng.range(0, 1), rng.coin() ? rng.range(0, 2) : -1, pick_tmpl(), rng.range(0, 2),
                                       rng.range(0, 1), rng.range(0, 1), rng.range(0, 3) == 0);
   append(l, { "set_up", "process" });
   const bool files = rng.coin();
@@ -2113,7 +2651,7 @@ random_dirty_history(const World& w, vh::Rng& rng, int length)
       else if (r < 28)
         l.push_back(string(rng.coin() ? "set_spimg_ip " : "set_spimg ") + num(rng.range(0, 2)));
       else if (r < 36)
-        l.push_back("set_tmpl " + num(rng.range(0, ntm - 1)));
+        l.push_back("set_tmpl " + num(pick_tmpl()));
       else if (r < 48)
         l.push_back("set_exam " + num(rng.range(0, 2)));
       else if (r < 56)
@@ -2463,12 +3001,63 @@ main(int argc, char** argv)
         Config r2;
         r2.act = 1; r2.att = 0; r2.sp = -1; r2.tmpl = 3; r2.exam = 2; r2.thr = 0; r2.zoom = 1; r2.rnd = true;
         phase_a(w, r2, rng, ne, "R2");
+        // round 4: energy windows that do not contain 511 keV / straddle it narrowly / very narrow / very wide, with
+        // energy resolutions 5 .. 30 % (templates 0-4 have 10-20 %, 7 has 5 %, 8 has 30 %)
+        const int x0 = w.exam_extra0;
+        Config e1;
+        e1.act = 0; e1.att = 0; e1.sp = 0; e1.tmpl = 0; e1.exam = x0 + 0; e1.thr = 0; e1.zoom = 0;
+        phase_a(w, e1, rng, ne, "E1");
+        Config e2;
+        e2.act = 1; e2.att = 1; e2.sp = -1; e2.tmpl = w.tmpl_res30; e2.exam = x0 + 1; e2.thr = 0; e2.zoom = 0;
+        phase_a(w, e2, rng, ne, "E2");
+        Config e3;
+        e3.act = 0; e3.att = 0; e3.sp = 1; e3.tmpl = (wi % 2) ? w.tmpl_res05 : w.tmpl_res30; e3.exam = x0 + 2; e3.thr = 0; e3.zoom = 0;
+        phase_a(w, e3, rng, ne, "E3");
+        Config e4;
+        e4.act = 1; e4.att = 0; e4.sp = 0; e4.tmpl = 3; e4.exam = x0 + 3; e4.thr = 0; e4.zoom = 0;
+        phase_a(w, e4, rng, ne, "E4");
+        Config e5;
+        e5.act = 0; e5.att = 1; e5.sp = -1; e5.tmpl = (wi % 2) ? 1 : w.tmpl_res05; e5.exam = x0 + 4; e5.thr = 0; e5.zoom = 1;
+        phase_a(w, e5, rng, ne, "E5");
+        Config e6;
+        e6.act = 1; e6.att = 0; e6.sp = 2; e6.tmpl = (wi % 2) ? w.tmpl_res05 : 2; e6.exam = x0 + 5; e6.thr = 0; e6.zoom = 0;
+        phase_a(w, e6, rng, ne, "E6");
+        Config e7;
+        e7.act = 0; e7.att = 1; e7.sp = 0; e7.tmpl = (wi % 2) ? 4 : w.tmpl_res30; e7.exam = x0 + 6; e7.thr = 0; e7.zoom = 0;
+        phase_a(w, e7, rng, ne, "E7");
+        if (thorough)
+          {
+            // every extra window once more with another template / resolution
+            for (int k = 0; k < 7; ++k)
+              {
+                Config ex;
+                ex.act = k % 2; ex.att = (k + 1) % 2; ex.sp = (k % 3 == 0) ? -1 : k % 3; ex.tmpl = (k + wi) % 2 ? w.tmpl_res05 : w.tmpl_res30; ex.exam = x0 + k;
+                ex.thr = 0; ex.zoom = 0;
+                phase_a(w, ex, rng, ne, "EX" + num(k));
+              }
+          }
+        // round 4: activity values up to 1e6 (formula correspondence `ssp`/`est`/`actint` on large integrals, all oracles)
+        Config l1;
+        l1.act = w.act_large; l1.att = 0; l1.sp = 0; l1.tmpl = 0; l1.exam = 0; l1.thr = 0; l1.zoom = 0;
+        phase_a(w, l1, rng, ne, "L1");
+        Config l2;
+        l2.act = w.act_large; l2.att = 1; l2.sp = -1; l2.tmpl = 3; l2.exam = x0 + 0; l2.thr = 0; l2.zoom = 1;
+        phase_a(w, l2, rng, ne, "L2");
+        // a point source and a half image as THE activity image (sparse: `ssp` lines with one-armed terms)
+        Config s1;
+        s1.act = w.act_point; s1.att = 0; s1.sp = 0; s1.tmpl = 0; s1.exam = 0; s1.thr = 0; s1.zoom = 0;
+        phase_a(w, s1, rng, ne, "S1");
+        Config s2;
+        s2.act = w.act_left; s2.att = 1; s2.sp = 1; s2.tmpl = 1; s2.exam = 2; s2.thr = 0; s2.zoom = 0;
+        phase_a(w, s2, rng, ne, "S2");
+        deteff_sweep(w, rng, thorough ? 60 : 30);
       }
       targeted_histories(w);
       three_step_histories(w, rng);
       entry_point_histories(w, rng);
       oracle_only_histories(w);
       parsed_object_oracle(w, rng);
+      auto_zoom_histories(w, rng, thorough ? 30 : 10);
       for (int k = 0; k < n_clean; ++k)
         random_clean_history(w, rng, len, k % 5 == 4);
       for (int k = 0; k < n_dirty; ++k)
